@@ -3,20 +3,31 @@
 (* observation of the implementation must satisfy the reference semantics  *)
 (* of the case's kind.  All lines are judged; the set of rejected line     *)
 (* numbers is printed at the end ("BAD" line) - TLC decides every case.    *)
-EXTENDS TextMatch, Json, IOUtils, TLC
+EXTENDS TextMatch, ReMatch, Json, IOUtils, TLC
 
-VARIABLES l, bad
+VARIABLES l, bad, known
 TraceLog == ndJsonDeserialize(IOEnv.TRACE)
 N == Len(TraceLog)
 
 CaseOK(c) ==
   CASE c.kind = "text" -> ObsOK(c.pat, c.mods, c.buf, c.obs)
+    [] c.kind = "re"   -> StringObsOK(c)
+    [] c.kind = "matches" -> c.obs = MatchesOp(c.ast, c.buf, [nocase |-> c.nocase, dotall |-> c.dotall, wide |-> FALSE])
     [] OTHER -> FALSE
 
-Init == l = 1 /\ bad = {}
+\* disagreements that carry the signature of a recorded known finding (decided from the case, spec side)
+KnownCase(c) ==
+  CASE c.kind = "re" -> IF StringObsOK_D14(c) THEN "D14" ELSE IF StringObsOK_D12(c) THEN "D12"
+                        ELSE IF StringObsOK_D17(c) THEN "D17" ELSE "none"
+    [] OTHER -> "none"
+
+Init == l = 1 /\ bad = {} /\ known = {}
 Next == /\ l <= N
         /\ l' = l + 1
-        /\ bad' = IF CaseOK(TraceLog[l]) THEN bad ELSE bad \cup {l}
-Spec == Init /\ [][Next]_<<l, bad>>
-Done == l = N + 1 => PrintT(<<"BAD", bad>>)
+        /\ IF CaseOK(TraceLog[l]) THEN UNCHANGED <<bad, known>>
+           ELSE LET k == KnownCase(TraceLog[l])
+                IN IF k = "none" THEN bad' = bad \cup {l} /\ UNCHANGED known
+                   ELSE known' = known \cup {<<l, k>>} /\ UNCHANGED bad
+Spec == Init /\ [][Next]_<<l, bad, known>>
+Done == l = N + 1 => PrintT(<<"BAD", bad>>) /\ PrintT(<<"KNOWN", known>>)
 =============================================================================
